@@ -723,7 +723,7 @@ func (e *FnEnc) nextInstr(i *ssa.Next) {
 	ks := s.SortOf(mt.Key())
 	k := e.declare("next.k", ks)
 	vis := e.heap(hv)
-	dom := sx("select", e.heap(s.MapDom(mt.Key())), m.T)
+	dom := e.declareEq("next.dom", "(Array "+ks+" Bool)", sx("select", e.heap(s.MapDom(mt.Key())), m.T))
 	e.assume(implies(okN, and(sx("select", dom, k), not(sx("select", vis, k)))))
 	e.assume(implies(not(okN), fmt.Sprintf("(forall ((k!q %s)) (! (=> (select %s k!q) (select %s k!q)) :pattern ((select %s k!q))))", ks, dom, vis, dom)))
 	e.assume(implies(sx("=", m.T, "0"), not(okN)))
